@@ -90,10 +90,10 @@ def candidates(rec: dict, rnd: random.Random, per_kind: int):
         out.append(dict(t="noeol", i=0, n=0, k=0, c=32))
     # doc string blocks: opening line -> closing line
     seps = [t["line"] for t in rec["toks"] if t["type"] == "DocStringSeparator"]
-    opens = {seps[j]: seps[j + 1] for j in range(0, len(seps) - 1, 2)}
+    opens = {seps[j]: seps[j + 1] for j in range(0, len(seps) - 1, 2) if seps[j + 1] <= n}
     closes = set(seps[1::2])
     struct = [i for i in range(1, n + 1) if i in toks and toks[i]["type"] in STRUCT]
-    rejected = [e["line"] for e in rec["errs"] if e["kind"] == "unexpected"]
+    rejected = [e["line"] for e in rec["errs"] if e["kind"] == "unexpected" and 1 <= e["line"] <= n]
     pick = lambda xs: rnd.sample(xs, min(per_kind, len(xs)))  # noqa: E731
     for i in pick(struct) + pick(rejected):      # (for rejected lines the spec decides whether the line is a keyword line by its own kind)
         out.append(dict(t="trail", i=i, n=rnd.choice([1, 3]), k=0, c=rnd.choice([32, 9])))
